@@ -16,9 +16,19 @@ The theorems are about the repaired code (`fix:` commit "load_dhcp(as_bin=True) 
 address to two node IDs": the binary branch of `load_dhcp` now passes `search_by_address=True` like
 the JSON branch).  On the unrepaired code `C16_inv` is false: request by ID 1, `save_dhcp(bin)`,
 release of 0o5, request by ID 2, `load_dhcp(bin)` leaves `{2: 0o5, 1: 0o5}`.
+
+`load_dhcp` does not clear the table.  Loading into a LIVE (non-empty) master: `C16_load_live` (any two
+tables with the invariant: the result has the invariant, holds all of the file, and of the old
+entries exactly those whose ID and address both do not occur in the file; both formats agree),
+`C16_load_same` (file = image of the table still held: reproduced exactly, order included),
+`C16_load_live_step` (the same as an event of a history).  "Reproduce the table exactly" therefore
+holds into an empty master (`C16_persist`) and into a master whose table is unchanged since the
+save (`C16_load_same`); into a master that changed meanwhile the saved entries win and
+non-colliding newer leases survive — a merge, not a restore.
 -/
 import NrfProofs.Lease
 import NrfProofs.LeaseJudge
+import NrfProofs.LeaseLive
 
 namespace Nrf.Props.C16
 open Nrf Nrf.Net Nrf.Mesh Nrf.Spec Nrf.Proofs.Lease
@@ -462,6 +472,121 @@ example : loadBin [] (saveBin [(7, 0o5), (200, 0o4321), (0, 65535)]).1
 
 example : loadJson [] (saveJson [(7, 0o5), (200, 0o5), (3, 0o14)]) = ([(200, 0o5), (3, 0o14)], none) := by
   decide
+
+/-! ## `load_dhcp` into a LIVE (non-empty) table (review item "C16 load into a live table") -/
+
+/-- **C16, load into a live table.**  What the code really does: both branches of `load_dhcp` call
+    `set_address(id, addr, search_by_address=True)` for every pair of the file, in file order — the
+    master's table is *not* cleared first.  For every table `t` the master holds and every table `u`
+    the file was written from, both satisfying the invariant (any sizes, nothing assumed about how
+    `t` and `u` are related): `save_dhcp(as_bin=True)` of `u` does not raise; loading either image of
+    `u` into `t` does not raise; both formats leave the same table `r`; `r` satisfies the invariant
+    (one lease per ID, one ID per address, all addresses leasable, IDs bytes); `r` contains every
+    entry of `u`; and of the entries of `t` it keeps exactly those whose ID is not an ID of `u` **and**
+    whose address is not an address of `u` — an old lease whose ID reappears in the file is
+    overwritten, an old lease whose address reappears in the file (under whatever ID) is deleted.
+    Stated on the contents (membership); for the order of `r` see `C16_load_same` (same table) and
+    `C16_persist` (empty table) — for two unrelated tables no order statement is made. -/
+theorem C16_load_live {t u : Table} (ht : Inv t) (hu : Inv u) :
+    (saveBin u).2 = none ∧
+    ∃ r, loadBin t (saveBin u).1 = (r, none) ∧ loadJson t (saveJson u) = (r, none) ∧ Inv r ∧
+      (∀ j b, (j, b) ∈ u → (j, b) ∈ r) ∧
+      (∀ j b, (j, b) ∈ r ↔
+        (j, b) ∈ u ∨ ((j, b) ∈ t ∧ (∀ b', (j, b') ∉ u) ∧ (∀ j', (j', b) ∉ u))) := by
+  have hdom : ∀ e ∈ u, e.1 < 256 ∧ e.2 < 65536 := by
+    intro e he
+    have := leasable_lt (hu.leasable e.1 e.2 he)
+    exact ⟨hu.idByte e.1 e.2 he, by omega⟩
+  have hs := saveBin_eq hdom
+  have hmem := mem_loadPairs (inj_of_inv ht) u hu.oneLeasePerId (addrs_nodup_of_inj (inj_of_inv hu))
+  refine ⟨by rw [hs], loadPairs t u, ?_, loadJson_saveJson t u, ?_, ?_, ?_⟩
+  · rw [hs, loadBin_encode _ _ (fun e he => (hdom e he).2)]
+  · exact inv_loadPairs ht (fun e he => ⟨hu.idByte e.1 e.2 he, hu.leasable e.1 e.2 he⟩)
+  · exact fun j b h => (hmem j b).mpr (Or.inl h)
+  · intro j b
+    rw [hmem j b]
+    constructor
+    · rintro (h | ⟨hj, hb, h⟩)
+      · exact Or.inl h
+      · exact Or.inr ⟨h, fun b' hm => hj (mem_keys_of_mem hm), fun j' hm => hb (mem_addrs_of_mem hm)⟩
+    · rintro (h | ⟨h, hj, hb⟩)
+      · exact Or.inl h
+      · refine Or.inr ⟨?_, ?_, h⟩
+        · intro hm
+          obtain ⟨e, he, rfl⟩ := List.mem_map.mp hm
+          exact hj e.2 he
+        · intro hm
+          obtain ⟨e, he, rfl⟩ := List.mem_map.mp hm
+          exact hb e.1 he
+
+/-- both hypotheses of `C16_load_live` instantiated (kernel-evaluated `invB`), on tables that collide
+    in every way: ID 7 is in both with different addresses, address 0o5 is in both under different
+    IDs, (3, 0o14) is in both unchanged, (9, 0o15) only in `t`, (200, 0o25) only in `u` -/
+example : Inv [(7, 0o5), (3, 0o14), (9, 0o15), (4, 0o24)] ∧ Inv [(7, 0o24), (2, 0o5), (3, 0o14), (200, 0o25)] :=
+  ⟨(invB_iff _).mp (by decide), (invB_iff _).mp (by decide)⟩
+
+/-- … and what the two loaders leave there: `(7, 0o5)` overwritten in place (ID in the file),
+    `(4, 0o24)` deleted (address in the file), `(9, 0o15)` kept, `(3, 0o14)` deleted and re-appended -/
+example :
+    loadBin [(7, 0o5), (3, 0o14), (9, 0o15), (4, 0o24)]
+        (saveBin [(7, 0o24), (2, 0o5), (3, 0o14), (200, 0o25)]).1
+      = ([(7, 0o24), (9, 0o15), (2, 0o5), (3, 0o14), (200, 0o25)], none) ∧
+    loadJson [(7, 0o5), (3, 0o14), (9, 0o15), (4, 0o24)]
+        (saveJson [(7, 0o24), (2, 0o5), (3, 0o14), (200, 0o25)])
+      = ([(7, 0o24), (9, 0o15), (2, 0o5), (3, 0o14), (200, 0o25)], none) := by decide
+
+/-- **C16, save and load back into the same live master.**  If the table has not changed since it
+    was saved, `load_dhcp` of either format reproduces it **exactly, order included**: every entry is
+    deleted and re-appended in turn (`set_address(…, True)` finds the address under the same ID), so
+    after the last pair the dictionary is in its original order.  Any table satisfying the invariant,
+    no size bound. -/
+theorem C16_load_same {t : Table} (h : Inv t) :
+    loadBin t (saveBin t).1 = (t, none) ∧ (saveBin t).2 = none ∧
+    loadJson t (saveJson t) = (t, none) := by
+  have hdom : ∀ e ∈ t, e.1 < 256 ∧ e.2 < 65536 := by
+    intro e he
+    have := leasable_lt (h.leasable e.1 e.2 he)
+    exact ⟨h.idByte e.1 e.2 he, by omega⟩
+  have hs := saveBin_eq hdom
+  refine ⟨?_, by rw [hs], ?_⟩
+  · rw [hs, loadBin_encode _ _ (fun e he => (hdom e he).2), loadPairs_self t h.oneLeasePerId]
+  · rw [loadJson_saveJson, loadPairs_self t h.oneLeasePerId]
+
+example : Inv [(7, 0o5), (200, 0o4321), (3, 0o14)] ∧
+    loadBin [(7, 0o5), (200, 0o4321), (3, 0o14)] (saveBin [(7, 0o5), (200, 0o4321), (3, 0o14)]).1
+      = ([(7, 0o5), (200, 0o4321), (3, 0o14)], none) :=
+  ⟨(invB_iff _).mp (by decide), by decide⟩
+
+/-- **C16, load into a live table, along histories.**  In a world whose table satisfies the invariant
+    and whose file (of the format loaded) is the image of a table `u` satisfying it — what `Good`
+    guarantees after every allowed history, `C16_inv_step` — the event `load_dhcp` leaves a table with
+    the invariant that contains all of `u` and exactly the non-colliding entries of the old table. -/
+theorem C16_load_live_step (w : World) (bin : Bool) {u : Table} (ht : Inv w.m.table) (hu : Inv u)
+    (hfile : if bin then w.fileBin = some (saveBin u).1 else w.fileJson = some (saveJson u)) :
+    (step w (.load bin)).2.res.exc = none ∧ (step w (.load bin)).2.noFile = false ∧
+    Inv (step w (.load bin)).1.m.table ∧
+    (∀ j b, (j, b) ∈ (step w (.load bin)).1.m.table ↔
+      (j, b) ∈ u ∨ ((j, b) ∈ w.m.table ∧ (∀ b', (j, b') ∉ u) ∧ (∀ j', (j', b) ∉ u))) := by
+  obtain ⟨_, r, hb, hj, hinv, _, hmem⟩ := C16_load_live ht hu
+  cases bin with
+  | true =>
+    simp only [↓reduceIte] at hfile
+    simp only [step, hfile, hb]
+    exact ⟨trivial, trivial, hinv, hmem⟩
+  | false =>
+    simp only [Bool.false_eq_true, ↓reduceIte] at hfile
+    simp only [step, hfile, hj]
+    exact ⟨trivial, trivial, hinv, hmem⟩
+
+/-- the hypotheses of `C16_load_live_step` on a world a history produces: ID 7 gets 0o5, the table is
+    saved (binary), 0o5 is released and given to ID 8, ID 9 gets 0o4 — then the stale file is loaded
+    into the live master: ID 8 loses 0o5 to ID 7 (address collision), ID 9 keeps 0o4 -/
+example :
+    let w := run {} [.dhcp 0o4444 7 true, .save true, .releaseApi 0o5 true, .dhcp 0o4444 8 true,
+      .dhcp 0o4444 9 true]
+    Inv w.m.table ∧ Inv [(7, 0o5)] ∧ w.fileBin = some (saveBin [(7, 0o5)]).1 ∧
+    w.m.table = [(8, 0o5), (9, 0o4)] ∧ (step w (.load true)).1.m.table = [(9, 0o4), (7, 0o5)] :=
+  ⟨(invB_iff _).mp (by decide), (invB_iff _).mp (by decide), by decide, by decide, by decide⟩
 
 /-! ## outside the property (observations, kept as checked facts) -/
 
